@@ -201,6 +201,83 @@ SPELLINGS_ARRAY = ["Td3", "Te3", "Tad3", "Tcd3", "Td3a", "Td3c", "Tce3", "TNd3",
 SPELLINGS_PARAM = ["Tp", "Tap", "TNd3p", "TNp"]
 
 
+def front_error_orders():
+    """two independent front-end errors in every relative order: error kind X at pipeline / entry point 0, kind Y at
+    pipeline / entry point 1 (and both at one pipeline), in both file layouts, with and without forward declarations.
+    The answer is the first error the type checker meets in file order (attributes are parsed where a function is
+    defined, a Pipeline block sees the functions registered before it)."""
+    kinds = "ABCDEFHI"
+
+    def build(errs, layout, fd, sampler_index=False, late=False):
+        res = "g_t:Texture2D:-:-:0:0:e;g_s:SamplerState:-:-:1:0:e" + (":vi3" if sampler_index else "")
+        names = ["cs_0", "cs_1", "vs_2", "ps_3"]
+        eopts = [[], [], [], []]
+        stages = [[0], [1]]
+        pnames = ["P0", "P1"]
+        popts = [[], []]
+        for kind, j in errs:
+            if kind == "A":
+                if j == 0:
+                    return None
+                pnames[1] = pnames[0]
+            elif kind == "B":
+                names[j] = "h0"
+            elif kind == "C":
+                stages[j] = [j, 2]
+            elif kind == "D":
+                stages[j] = [j, j]
+            elif kind == "E":
+                popts[j].append("gs3")
+            elif kind == "F":
+                stages[j] = []
+            elif kind == "H":
+                eopts[j].append("nt3")
+            elif kind == "I":
+                popts[j].append("b")
+        if fd:
+            for j in (0, 1):
+                eopts[j].append("fd")
+        if late:
+            eopts[0].append("lo")
+        ents = []
+        for k, (n, st, th) in enumerate(zip(names, ["Compute", "Compute", "Vertex", "Pixel"], ["8.4.1", "4.2.1", "-", "-"])):
+            e = f"{n}:{st}:0:::{th}"
+            if eopts[k]:
+                e += ":" + "+".join(eopts[k])
+            ents.append(e)
+        pipes = []
+        for j in (0, 1):
+            pp = f"{pnames[j]}:-:{','.join(str(x) for x in stages[j])}"
+            if popts[j]:
+                pp += ":" + "+".join(popts[j])
+            pipes.append(pp)
+        return [layout, res, "h0:0::", ";".join(ents), ";".join(pipes)]
+
+    out = []
+    stage_kinds = "CDF"
+    for layout in ["0", "0;L1"]:
+        for fd in [False, True]:
+            combos = []
+            for x in kinds:
+                combos.append(([(x, 0)], False))
+                combos.append(([(x, 1)], False))
+                combos.append(([(x, 1)], True))          # a static sampler with an index comes before everything
+                for y in kinds:
+                    combos.append(([(x, 0), (y, 1)], False))
+                    if x < y and not (x in stage_kinds and y in stage_kinds):
+                        # both at one pipeline: the order of the checks inside parse_pipeline / between a block and its entry
+                        combos.append(([(x, 0), (y, 0)], False))
+                        combos.append(([(x, 1), (y, 1)], False))
+            for errs, sampler in combos:
+                for late in ([False, True] if len(errs) == 1 else [False]):
+                    f = build(errs, layout, fd, sampler, late)
+                    if f is None:
+                        continue
+                    for tgt in ["dx", "msl"]:
+                        out.append("\t".join(["C05.meta", tgt, "all"] + f))
+    return out
+
+
 def search(ctx):
     """small inputs enumerated for the witness search after a broken obligation: every bindable kind alone and
     next to a second resource, with and without array / explicit group (in each spelling) / static sampler / bindless,
@@ -294,6 +371,8 @@ def search(ctx):
                   "cs_0:Compute:0:::70000.0.3", "vs_0:Vertex:0:::4.2.1", "cs_0:Compute:0:::8.4.1:fd", "float16_t:Compute:0:::8.4.1"]:
             out.append("\t".join(["C05.meta", tgt, "name=P0", "0", "g_t:Texture2D:-:-:0:0:e", "", e, "P0:-:0"]))
         out.append("\t".join(["C05.meta", tgt, "name=P0", "0", "g_t:Texture2D:-:-:0:0:e", "a:0::;a::0:", "a_0:Compute:0:0,1::8.4.1", "P0:-:0"]))
+    # two front-end errors in every relative order
+    out.extend(front_error_orders())
     # what the typer builds: the layer chain of every distinct resource list above (target independent)
     seen = []
     for line in out:
@@ -335,7 +414,7 @@ SPEC = {
         "hlsl_metadata_total", "hlsl_metadata_total_or_refused", "msl_metadata_total_or_refused",
         "msl_export_total_or_refused", "msl_reached_argument_is_bound",
         "entry_named_and_defined", "reported_thread_group_size_is_emitted", "stage_records_follow_properties",
-        "reported_size_is_the_typers_record", "pipeline_names_distinct", "reported_name_denotes_one_symbol", "hlsl_entry_point_unambiguous",
+        "reported_size_is_the_typers_record", "pipeline_names_distinct", "first_front_end_error_wins", "reported_name_denotes_one_symbol", "hlsl_entry_point_unambiguous",
         "reported_name_not_reserved", "name_kept_when_unique_and_free", "hlsl_cbuffer_bypasses_name_map_witness",
         "same_leaf_name_in_two_namespaces_witness",
         # Thm/C05Layers.lean: type spellings / layer chains
@@ -362,10 +441,17 @@ SPEC = {
             "0-4 pipelines: compute, vertex+pixel, mesh+pixel, task+mesh, stage properties in either order, both file "
             "layouts, numthreads as literals / named constants / arithmetic, graphics state property sets; "
             "rare variants: unsized arrays, static object globals, a global of a non-resource object type (RayDesc), names "
-            "reserved in a target, overloaded helpers, name clashes, eight front-end error shapes incl. a second numthreads "
-            "attribute) rendered to a file and compiled by the real compile() x {dx, vk, "
+            "reserved in a target, overloaded helpers, name clashes; files the front end refuses: ten error shapes (pipeline "
+            "name twice, entry point named like a helper, compute next to graphics, stage property twice, graphics state on "
+            "compute, no entry point, static sampler with index, second numthreads on a definition with / without forward "
+            "declaration, Pipeline block written before the definitions of its entry points) alone or TWO / THREE "
+            "independent ones at random places of the file in both layouts (a sixth of the programs with pipelines), plus "
+            "accepted order-sensitive shapes: a second numthreads attribute on a forward declaration only, an overload of an "
+            "entry point defined after every Pipeline block) rendered to a file and compiled by the real compile() x {dx, vk, "
             "vk+buffer-address, msl} x {all, one name, no-pipeline}, plus a sweep of every reserved name of hlsl/msl names.rs "
-            "as entry-point and as resource name and an enumeration of ~16000 small inputs (every spelling x kind x target); a second "
+            "as entry-point and as resource name and an enumeration of ~17000 small inputs (every spelling x kind x target; "
+            "every ordered pair of front-end error kinds at two pipelines / entry points and at one, x layout x forward "
+            "declarations: ~1160 files whose answer is the FIRST error in file order); a second "
             "stream C05.layers sends the resource declarations through the real type_check and compares the layer chain of every "
             "global's type with the chain the model builds from the spelling; the emitted HLSL is re-parsed with "
             "the real lexer+parser (MSL: text scan) and the property's own oracle compares every metadata entry with the "
@@ -401,11 +487,18 @@ SPEC = {
                   "of seed C05-3 misreads a typedef'd table. Used flag (full): the usage fixed point loop terminates (at most n*n modifying passes over n "
                   "symbols) and equals reachability in the use graph of bodies, default arguments and global initialisers, "
                   "so is_used on Metal holds iff some stage entry point reaches the global (HLSL always reports true). "
-                  "Stages: an accepted Pipeline block yields one record per stage property in property order, each pointing "
-                  "at the unique function of that name and storing its last numthreads attribute; an accepted file declares "
-                  "no function with a second numthreads attribute (fix 0f5be73: parse_function_attributes), so on every "
+                  "Stages: the front end is modelled in FILE ORDER with the function registry of the moment (parseFile / regAt: "
+                  "a function is registered where its first declaration or definition stands, its attributes are parsed only "
+                  "at the definition -- never on a forward declaration --, it has an implementation after its definition; a "
+                  "Pipeline block is parsed where it stands); the first error in file order refuses the file, for every file "
+                  "(first_front_end_error_wins); an accepted Pipeline block yields one record per stage property in property "
+                  "order, each pointing at the unique function of that name registered SO FAR (a later overload does not "
+                  "matter) and storing its last numthreads attribute; the entry function of a record has an implementation "
+                  "when the block is met, so an earlier root definition defined it and its attributes went through "
+                  "parse_function_attributes (fix 0f5be73): at most one numthreads; so on every "
                   "target and stage kind build_pipeline reports the emitted function and the thread group size attributes it "
-                  "is emitted with are exactly the reported size (the former negation witness is gone). Names: composed with the C15 model of NameMap::build, two different functions / globals of one "
+                  "is emitted with are exactly the reported size (the former negation witness is gone); the pipelines of an "
+                  "accepted file are its blocks in source order with pairwise different names. Names: composed with the C15 model of NameMap::build, two different functions / globals of one "
                   "scope never share a reported name, no reported name is reserved, and a unique unreserved name is kept "
                   "(NameKept is now a theorem, not a hypothesis); the two remaining ways two entries can share a name (HLSL "
                   "cbuffer blocks bypass the map; leaf names across namespaces) are proved as negation witnesses and recorded "
@@ -416,7 +509,10 @@ SPEC = {
         "tools/gens/c05.py (Gen.MetaTables): ObjectType->DescriptorType tables of both exporters, RegisterType letters, "
         "register/attribute format strings, entry function names, reserved names, intrinsic function names, and regex facts about "
         "the DescriptorBinding literals, msl generate_pipeline, the HLSL annotation generators, build_pipeline, parse_pipeline / "
-        "add_stage, parse_function_attributes, the name lookups of both exporters, simplify_cbuffers, the numthreads printers, "
+        "add_stage, parse_function_attributes, the order of the front end (type_check_internal walks the root definitions in "
+        "source order and returns at the first error; parse_function registers at the first declaration, parses attributes "
+        "under `if is_definition` only, stores the implementation after attributes and body; a Pipeline arm calls "
+        "parse_pipeline in place), the name lookups of both exporters, simplify_cbuffers, the numthreads printers, "
         "the formatter's attribute argument precedence and Metal's UnboundGlobal test; the symbolic reader of the type peels "
         "(data flow of the `let` statements between decl.type_id and the matched layer in both analyse_bindings, "
         "process_definition and is_buffer_address -> lists of PeelOp; statements it does not understand become `unknown`, which "
@@ -428,7 +524,8 @@ SPEC = {
         "Rust functions; tied to the code by the correspondence run (model answer == observation of the real compile()) and the "
         "regex facts, not by a proof about Rust",
         "Driver/C05.lean: how a request becomes the models' inputs (declaration order, registry order of structs / globals / "
-        "functions per target, use graph, the spelling -> globalTy arguments); checked only by the correspondence run (the "
+        "functions per target, use graph, the spelling -> globalTy arguments, itemsOf = the file order of forward "
+        "declarations / definitions / Pipeline blocks / late overloads); checked only by the correspondence run (the "
         "layer chains by the stream C05.layers against the real type registry)",
         "Spec/Meta.lean: our reader of annotation text, D3D register classes of descriptor types, reachability; "
         "Spec/MetaLayers.lean: what a layer chain means for a binding (innermost object under at most one array layer, "
@@ -450,5 +547,9 @@ SPEC = {
         "it (fact modifierNeverWrapsModifier) and the C05.layers oracle checks it on every observed chain; modifier layers carry "
         "no content in the model (const only is generated; row_major / unorm need matrix / float types no resource global has)",
         "array dimensions of generated declarations are literals",
+        "function ids are positions in a fixed table (helpers, entry points, late overloads, intrinsics) with `registered` / "
+        "`hasBody` flags per moment instead of the registry's allocation order: ids are opaque keys, only which function a "
+        "record points at is observable; redefinition / overload-conflict errors of check_existing_functions are not "
+        "modelled (such files are skipped as unknown compile errors)",
     ],
 }
